@@ -348,10 +348,12 @@ impl HandshakeState {
             .pop_front()
             .expect("X pattern consists of a single message");
         let mut msgidx: usize = 0;
-        assert!(
-            message.len() >= 64 && message.len() <= 65535,
-            "Noise X pattern handshake message must >= 64 and <= 65535 bytes"
-        );
+        // e (32) + encrypted s (32 + 16) + encrypted payload (at least a 16 byte tag)
+        if message.len() < DH_LEN + DH_LEN + 16 + 16 || message.len() > 65535 {
+            return Err(NoiseError::Other(
+                "Noise X pattern handshake message must be >= 96 and <= 65535 bytes".to_string(),
+            ));
+        }
         for pattern in message_pattern {
             match pattern {
                 Token::E => {
